@@ -137,7 +137,7 @@ def run_sbc_case(case, want_c13=True, determinism=True):
     pk = ",".join(sorted(k for k in params))
     out["info"] = {"key": "%s|%s|%s|%d|%s|%s" % (meta["family"], meta["pbc"], meta["cell_mode"], len(atoms) // 25, pk, n_clusters),
                    "nontrivial": bool(n_clusters > 0 or acted or meta["expect_value_error"]),
-                   "classes": {"family": meta["family"], "pbc": meta["pbc"], "cell_mode": meta["cell_mode"], "positions_mode": meta["positions_mode"],
+                   "classes": {"family": meta["family"], "pbc": meta["pbc"], "cell_mode": meta["cell_mode"], "positions_mode": meta["positions_mode"], "order": meta.get("order", "as_built"),
                                "natoms_bucket": len(atoms) // 25 * 25, "n_clusters": n_clusters,
                                "radii": params.get("radii") if isinstance(params.get("radii", "covalent"), str) else "custom"}}
     out["data"] = {"signature": sig, "exception": None if exc is None else type(exc).__name__}
